@@ -2151,6 +2151,10 @@ class LogicalFile:
                 yield value
 
         origin_references = [o.origin_reference for o in self.origins]
+        if len(set(origin_references)) != len(origin_references):
+            # (add_origin refuses a reference which is already taken; the setter of an origin's reference does not know)
+            raise RuntimeError(f"Several origins of the logical file have the same origin reference "
+                               f"(references of the origins: {origin_references})")
 
         # (the file header is kept apart from the other sets)
         if self.file_header_item.origin_reference not in origin_references:
